@@ -123,8 +123,8 @@ def run(chk):
                         'ties give weights below float rounding and are outside the model',
                         'each grid update is modelled as a non-atomic read followed by a write; stripes of a pass may all run concurrently',
                         'compiled-thread comparison is probabilistic (races are not forced); forced schedules use the interpreted kernel source']
-    maxn_rule = 48 if chk.quick else 96
-    maxt_rule = 16 if chk.quick else 32
+    maxn_rule = 40 if chk.quick else 96
+    maxt_rule = 8 if chk.quick else 32
     offs = '{-4, -2, -1, 0, 1, 2, 3, 4}'
     # ---- M1a arithmetic sweep
     vf = os.path.join(chk.scratch, 'rule.json')
@@ -162,7 +162,7 @@ ASSUME JsonSerialize(IOEnv.VERDICT_OUT, [fixed |-> SetToSeq(UnsafePairs({maxn_ru
         raise RuntimeError('positive control failed: odd stripe count did not produce a lost update in the model')
     chk.part('M1b_control_odd_np3', outcome='NoLostUpdate violated (expected)')
     # ---- M3: observed decisions and footprints judged by TLC
-    maxn = 40 if chk.quick else 96
+    maxn = 32 if chk.quick else 96
     threads = [1, 2, 3, 4, 8, 16]
     dec = observe_decisions(maxn, threads)
     fps = []
@@ -227,7 +227,7 @@ ASSUME JsonSerialize(IOEnv.VERDICT_OUT, [fixed |-> SetToSeq(UnsafePairs({maxn_ru
     # ---- schedule replay on the real source of _tsc_parallel
     import sched
     nrep = 0
-    for (n1d, p) in acc_conc[: (4 if chk.quick else 25)]:
+    for (n1d, p) in acc_conc[: (3 if chk.quick else 25)]:
         for o in (0, 2):
             for drop in ((), (1,), (p - 2,), (1, 2, 3)):
                 if drop and (max(drop) >= p or (chk.quick and o != 0)):
